@@ -38,7 +38,6 @@ def setup(ctx, tier):
 def teardown(ctx):
     probe.S.monitors = ()
     ctx.extra['probe_calls_observed'] = probe.S.calls
-    ctx.extra['distinct_call_names_checked'] = len([k for k in ctx.ops if k.startswith('immutability:name:')])
     for k in [k for k in ctx.ops if k.startswith('immutability:name:')]:
         ctx.extra.setdefault('calls_checked_by_name', {})[k.split(':', 2)[2]] = ctx.ops.pop(k)
 
@@ -141,3 +140,9 @@ def run_case(ctx, case):
             ctx.violation('alias:%s:%s:value' % (op, ak), {'op': op, 'alias': ak, 'D': D, 'P': P, 'shape': shape, 'err': err,
                                                          'first_bad_order': int(np.argmax(np.abs(x.data - xc.data).reshape(D, -1).max(axis=1) > TOL * np.max(np.abs(xc.data))))}); return
         ctx.ok('alias:' + op, ('iop', op, ak, D, P, shape), noise=err)
+
+
+def finish(ctx):
+    from .. import core
+    ctx.extra['distinct_call_names_checked'] = len(ctx.extra.get('calls_checked_by_name', {}))
+    return core.finish(ctx, REQUIRED, RULE, assumptions=ASSUMPTIONS)
